@@ -41,8 +41,18 @@ def dense_solve(M, rhs):
     return np.linalg.solve(M.toarray(), rhs)
 
 
-def relerr(a, b):
-    return float(np.abs(a - b).max()) / max(1e-300, float(np.abs(b).max()))
+def relerr(a, b, blocks=None):
+    """max-norm error relative to the reference; with blocks = (nf, nc): the worst of the flux / pressure / multiplier blocks,
+    each relative to its own magnitude (but not below 1e-3 of the whole solution's)."""
+    glob = max(1e-300, float(np.abs(b).max()))
+    if blocks is None:
+        return float(np.abs(a - b).max()) / glob
+    nf, nc = blocks
+    worst = 0.0
+    for sl in (slice(0, nf), slice(nf, nf + nc), slice(nf + nc, None)):
+        if a[sl].size:
+            worst = max(worst, float(np.abs(a[sl] - b[sl]).max()) / max(1e-3 * glob, float(np.abs(b[sl]).max())))
+    return worst
 
 
 def pattern_event(darsia, shape, tid):
@@ -107,13 +117,31 @@ def run(ck, replay=None):
         fw = np.array([10 ** rng.uniform(-1.5, 1.5) for _ in range(nf)])
         rhs = random_rhs(rng, nf, nc, rng.random() < 0.7)
         ref = None
+        # a source that does not sum to zero makes the multiplier non-zero; the formulations that keep the multiplier have to
+        # reproduce it (the pressure-only one documents that it requires a compatible source)
+        if rng.random() < 0.35:
+            rhs_nz = rhs.copy()
+            rhs_nz[nf:nf + nc] += rng.uniform(0.2, 1.0)
+            refz = None
+            for form, backend in (("full", "direct"), ("flux_reduced", "direct"), ("flux_reduced", "amg")):
+                e = {"tid": f"agree:nonzero-mean:{'x'.join(map(str, s))}:{form}:{backend}", "op": "agree", "form": form, "backend": backend, "shape": list(s), "raised": 0, "errexp": 3, "resexp": 3}
+                try:
+                    sol, M = solve_with(darsia, rng, grid, form, backend, fw, rhs_nz)
+                    if refz is None:
+                        refz = dense_solve(M, rhs_nz)
+                    e["errexp"] = exponent(relerr(sol, refz, (nf, nc)))
+                    e["resexp"] = exponent(float(np.abs(M @ sol - rhs_nz).max()) / max(1e-300, float(np.abs(rhs_nz).max())))
+                except Exception as ex:  # noqa
+                    e["raised"] = 1
+                    e["error"] = repr(ex)[:160]
+                events.append(e)
         for form, backend in (combos if not quick else rng.sample(combos, 4)):
             e = {"tid": f"agree:{'x'.join(map(str, s))}:{form}:{backend}", "op": "agree", "form": form, "backend": backend, "shape": list(s), "raised": 0, "errexp": 3, "resexp": 3}
             try:
                 sol, M = solve_with(darsia, rng, grid, form, backend, fw, rhs)
                 if ref is None:
                     ref = dense_solve(M, rhs)
-                e["errexp"] = exponent(relerr(sol, ref))
+                e["errexp"] = exponent(relerr(sol, ref, (nf, nc)))
                 e["resexp"] = exponent(float(np.abs(M @ sol - rhs).max()) / max(1e-300, float(np.abs(rhs).max())))
             except Exception as ex:  # noqa
                 e["raised"] = 1
